@@ -143,7 +143,9 @@ Section SigConv.
     | RKeyed _ => is_kind KKeyed t
     | RSpread _ => is_kind KSpread t
     | RParams _ _ => is_kind KParams t
-    | RArgs _ | RParenArgs _ | RFuncArgs _ _ => is_kind KArgs t
+    | RArgs _ => is_kind KArgs t
+    | RParenArgs _ => is_kind KArgs t && paren_args_only (children t)
+    | RFuncArgs _ ti => is_kind KArgs t && match ti with NotTable => true | _ => false end
     | RImportItemPath _ => is_kind KImportItemPath t
     | RImportItemRenamed _ => is_kind KRenamedImportItem t
     end.
@@ -507,9 +509,23 @@ Section SigConv.
       post (convert_destruct_assignment swidth kids c) (good_doc (tsigs kids)).
     Proof. flow_conv convert_destruct_assignment. Qed.
     Lemma cons_convert_set_rule c :
-      all_kept (fun c => is_expr c || kind_eqb (kind_of c) KArgs) (map bt kids) = true ->
+      all_kept (fun c => is_expr c || kind_eqb (kind_of c) KArgs) (map bt kids) &&
+      forallb (fun c => negb (kind_eqb (kind_of c) KArgs) || paren_args_only (children c)) (map bt kids) = true ->
       post (convert_set_rule swidth kids c) (good_doc (tsigs kids)).
-    Proof. flow_conv convert_set_rule. Qed.
+    Proof.
+      intros Hk2. apply andb_prop in Hk2. destruct Hk2 as [Hk Hpa]. unfold convert_set_rule. apply flow_like_sig.
+      flow_setup tt. intros c0.
+      pose proof (proj1 (forallb_forall _ _) Hpa (bt child) (in_map bt _ _ Hin)) as Hp. cbn beta in Hp.
+      destruct (is_expr (bt child)) eqn:E1.
+      { pstep Hsg Hsc. apply post_ret. fsimp. split; assumption. }
+      destruct (kind_eqb (bk child) KArgs) eqn:E2.
+      { unfold bk in E2. rewrite E2 in Hp. cbn in Hp.
+        apply (post_bind _ _ (good_doc (tsig (bt child)))).
+        - apply (sgood_call _ _ Hsg Hsc). cbn. unfold is_kind. rewrite E2, Hp. reflexivity.
+        - intros d [Hd Wd]. apply post_ret. fsimp. split; assumption. }
+      apply post_ret. fsimp. unfold bk in E2. rewrite Hgen, E1, E2 in Hkeep. cbn in Hkeep. unfold sig_empty in Hkeep.
+      destruct (tsig (bt child)); [reflexivity|discriminate].
+    Qed.
     Lemma cons_convert_show_rule c :
       all_kept is_expr (map bt kids) = true -> post (convert_show_rule swidth kids c) (good_doc (tsigs kids)).
     Proof. flow_conv convert_show_rule. Qed.
@@ -955,6 +971,531 @@ Section SigConv.
     Qed.
   End Blocks.
 
+  (* ---------- func_call.rs: arguments ---------- *)
+  Lemma take_until_map l : map bt (take_until_rparen l) = take_until_rparen_t (map bt l).
+  Proof. induction l as [|b l IH]; cbn; [reflexivity|]. unfold bk. destruct (kind_eqb _ _); cbn; [reflexivity|rewrite IH; reflexivity]. Qed.
+  Lemma skip_until_map k l : map bt (skip_until k l) = skip_until_t k (map bt l).
+  Proof. induction l as [|b l IH]; cbn; [reflexivity|]. unfold bk. destruct (kind_eqb _ _); cbn; [reflexivity|exact IH]. Qed.
+  Lemma filter_map_bt (p : tree -> bool) l : map bt (filter (fun b => p (bt b)) l) = filter p (map bt l).
+  Proof. induction l as [|b l IH]; cbn; [reflexivity|]. destruct (p (bt b)); cbn; rewrite IH; reflexivity. Qed.
+  Lemma has_paren_map l : has_parenthesized_args l = has_paren_t (map bt l).
+  Proof. destruct l; reflexivity. Qed.
+  Lemma Forall_take_until (P : bundle -> Prop) l : Forall P l -> Forall P (take_until_rparen l).
+  Proof. induction 1 as [|b l Hb Hl IH]; cbn; [constructor|]. destruct (kind_eqb _ _); constructor; assumption. Qed.
+  Lemma Forall_skip_until (P : bundle -> Prop) k l : Forall P l -> Forall P (skip_until k l).
+  Proof. induction 1 as [|b l Hb Hl IH]; cbn; [constructor|]. destruct (kind_eqb _ _); [constructor; assumption|exact IH]. Qed.
+  Lemma Forall_filter (P : bundle -> Prop) p l : Forall P l -> Forall P (filter p l).
+  Proof. induction 1 as [|b l Hb Hl IH]; cbn; [constructor|]. destruct (p b); [constructor; assumption|exact IH]. Qed.
+
+  Lemma Forall_firstn (P : bundle -> Prop) n l : Forall P l -> Forall P (firstn n l).
+  Proof. intros H. revert n. induction H; intros [|n]; cbn; constructor; auto. Qed.
+  Lemma Forall_skipn (P : bundle -> Prop) n l : Forall P l -> Forall P (skipn n l).
+  Proof. intros H. revert n. induction H; intros [|n]; cbn; try constructor; auto. Qed.
+
+  Section Args.
+    Variable kids : list bundle.
+    Hypothesis Hgood : Forall sgood kids.
+    Hypothesis Hscope : Forall (fun b => sc (bt b) = true) kids.
+
+    Lemma cons_convert_arg_in l c b : Forall sgood l -> Forall (fun b => sc (bt b) = true) l -> In b l ->
+      post (convert_arg c b) (good_doc (tsig (bt b))).
+    Proof.
+      intros Hg Hs Hin. destruct (arg_shape c b) as (r & -> & Hfit). rewrite Forall_forall in Hg, Hs.
+      apply sgood_call; auto.
+    Qed.
+
+    Lemma cons_convert_parenthesized_args t c :
+      lwalkb is_arg (take_until_rparen_t (map bt kids)) false = true ->
+      post (convert_parenthesized_args swidth cfg t kids c) (good_doc (tsigs (take_until_rparen kids))).
+    Proof.
+      intros Hw. unfold convert_parenthesized_args.
+      eapply post_bind.
+      - apply list_conv_sig; [apply fresh_fold, fresh_keep, fresh_new|apply Forall_take_until; exact Hscope|rewrite take_until_map; exact Hw|].
+        intros c0 b Hin _. apply (cons_convert_arg_in (take_until_rparen kids)); [apply Forall_take_until; exact Hgood|apply Forall_take_until; exact Hscope|exact Hin].
+      - intros l (E & W & F). apply post_ret. apply lst_doc_good; [repeat split; reflexivity|exact E|exact W|exact F].
+    Qed.
+
+    Lemma cons_convert_additional_args c hp :
+      post (convert_additional_args kids c hp)
+           (good_doc (tsigs (filter (fun b => kind_eqb (bk b) KContentBlock) (skip_until (if hp then KRightParen else KContentBlock) kids)))).
+    Proof.
+      unfold convert_additional_args.
+      set (l := filter _ (skip_until _ kids)).
+      assert (Hl : Forall (fun b => sgood b /\ sc (bt b) = true /\ kind_eqb (bk b) KContentBlock = true) l).
+      { unfold l. apply Forall_forall. intros b Hin. apply filter_In in Hin. destruct Hin as [Hin Hk].
+        assert (Hin' : In b kids).
+        { clear - Hin. induction kids as [|x r IH]; cbn in Hin; [contradiction|]. destruct (kind_eqb _ _); [exact Hin|right; apply IH; exact Hin]. }
+        rewrite Forall_forall in Hgood, Hscope. auto. }
+      clearbody l.
+      eapply post_weaken.
+      - apply (post_foldM_sig _ dsig (fun b => tsig (bt b)) (fun d => wsig d = true)); [reflexivity|].
+        intros d b Hin Hw. rewrite Forall_forall in Hl. destruct (Hl b Hin) as (Hsg & Hsc & Hk).
+        eapply post_bind; [apply (sgood_call b (RContentBlock c) Hsg Hsc Hk)|].
+        intros x [Hx Wx]. apply post_ret. rewrite dsig_append, Hx. split; [reflexivity|apply wsig_append; assumption].
+      - intros d [E W]. split; [exact E|exact W].
+    Qed.
+
+    Lemma args_sig_eq :
+      args_ok (map bt kids) = true ->
+      tsigs kids = tsigs (if has_parenthesized_args kids then take_until_rparen kids else []) ++
+                   tsigs (filter (fun b => kind_eqb (bk b) KContentBlock)
+                                 (skip_until (if has_parenthesized_args kids then KRightParen else KContentBlock) kids)).
+    Proof.
+      intros H. unfold args_ok in H. apply andb_prop in H. destruct H as [H _]. apply (proj1 (str_eqb_eq _ _)) in H.
+      rewrite tsigl_map in H. rewrite H. unfold args_main, args_extra. rewrite <- has_paren_map.
+      f_equal.
+      - destruct (has_parenthesized_args kids); [rewrite <- take_until_map, tsigl_map; reflexivity|reflexivity].
+      - rewrite <- skip_until_map. rewrite <- (filter_map_bt (fun b => kind_eqb (kind_of b) KContentBlock)), tsigl_map. reflexivity.
+    Qed.
+
+    Lemma cons_convert_args t c :
+      args_ok (map bt kids) = true -> post (convert_args swidth cfg t kids c) (good_doc (tsigs kids)).
+    Proof.
+      intros H. rewrite (args_sig_eq H). unfold convert_args.
+      unfold args_ok in H. apply andb_prop in H. destruct H as [_ Hw]. unfold args_main in Hw. rewrite <- has_paren_map in Hw.
+      apply (post_bind _ _ (good_doc (tsigs (if has_parenthesized_args kids then take_until_rparen kids else [])))).
+      - destruct (has_parenthesized_args kids); [apply cons_convert_parenthesized_args; exact Hw|apply post_ret; apply good_nil].
+      - intros p Hp. eapply post_bind; [apply cons_convert_additional_args|]. intros a Ha. apply post_ret. apply good_append; assumption.
+    Qed.
+
+    Lemma math_slice_eq :
+      (let len := length kids in
+       let i := match position (fun b => negb (kin (bk b) [KLeftParen; KSpace])) kids 0 with Some i => i | None => 0%nat end in
+       let j := match position (fun b => negb (kin (bk b) [KRightParen; KSpace])) (rev kids) 0 with
+                | Some r => (len - 1 - r)%nat | None => (len - 1)%nat end in
+       if Nat.ltb j i then [] else firstn (j + 1 - i) (skipn i kids)) = math_slice bk kids.
+    Proof.
+      unfold math_slice. cbv zeta.
+      assert (P1 : forall l i, position (fun b => negb (kin (bk b) [KLeftParen; KSpace])) l i =
+                               (fix pos (l : list bundle) (i : nat) := match l with [] => None | x :: r =>
+                                  if negb (match bk x with KLeftParen | KSpace => true | _ => false end) then Some i else pos r (S i) end) l i).
+      { induction l as [|x r IH]; intros i; cbn [position]; [reflexivity|]. rewrite IH. destruct (bk x); reflexivity. }
+      assert (P2 : forall l i, position (fun b => negb (kin (bk b) [KRightParen; KSpace])) l i =
+                               (fix pos (l : list bundle) (i : nat) := match l with [] => None | x :: r =>
+                                  if negb (match bk x with KRightParen | KSpace => true | _ => false end) then Some i else pos r (S i) end) l i).
+      { induction l as [|x r IH]; intros i; cbn [position]; [reflexivity|]. rewrite IH. destruct (bk x); reflexivity. }
+      rewrite P1, P2. reflexivity.
+    Qed.
+
+    Lemma math_slice_map : map bt (math_slice bk kids) = math_slice kind_of (map bt kids).
+    Proof.
+      unfold math_slice. rewrite map_length, <- map_rev.
+      assert (P : forall (f : kind -> bool) l i,
+                (fix pos (l : list bundle) (i : nat) := match l with [] => None | x :: r => if negb (f (bk x)) then Some i else pos r (S i) end) l i =
+                (fix pos (l : list tree) (i : nat) := match l with [] => None | x :: r => if negb (f (kind_of x)) then Some i else pos r (S i) end) (map bt l) i).
+      { induction l as [|x r IH]; intros i; cbn; [reflexivity|]. rewrite IH. reflexivity. }
+      rewrite <- (P (fun k => match k with KLeftParen | KSpace => true | _ => false end)).
+      rewrite <- (P (fun k => match k with KRightParen | KSpace => true | _ => false end)).
+      match goal with |- map bt (if ?b then _ else _) = _ => destruct b end; [reflexivity|].
+      rewrite <- firstn_map, <- skipn_map. reflexivity.
+    Qed.
+
+    Lemma slice_incl (P : bundle -> Prop) : Forall P kids -> Forall P (math_slice bk kids).
+    Proof.
+      intros H. unfold math_slice. match goal with |- Forall P (if ?b then _ else _) => destruct b end; [constructor|].
+      apply Forall_firstn, Forall_skipn. exact H.
+    Qed.
+
+    Lemma cons_convert_args_in_math t c :
+      margs_ok (map bt kids) = true -> post (convert_args_in_math swidth cfg t kids c) (good_doc (tsigs kids)).
+    Proof.
+      intros H. unfold margs_ok in H. apply andb_prop in H. destruct H as [He Hk]. apply (proj1 (str_eqb_eq _ _)) in He.
+      rewrite tsigl_map, <- math_slice_map, tsigl_map in He. rewrite <- math_slice_map in Hk.
+      unfold convert_args_in_math. cbv zeta. pose proof math_slice_eq as Hms. cbv zeta in Hms. rewrite Hms. clear Hms. rewrite He.
+      set (sl := math_slice bk kids) in *.
+      assert (Hg : Forall sgood sl) by (apply slice_incl; exact Hgood).
+      assert (Hs : Forall (fun b => sc (bt b) = true) sl) by (apply slice_incl; exact Hscope).
+      clearbody sl.
+      eapply post_bind.
+      - apply (flow_like_iter_sig _ _ _ _ (fun _ _ => True)); [|exact I]. apply fchildren_stateless.
+        apply Forall_forall. intros child Hin. rewrite Forall_forall in Hg, Hs. pose proof (Hg child Hin) as Hsg. pose proof (Hs child Hin) as Hsc.
+        pose proof (proj1 (forallb_forall _ _) Hk (bt child) (in_map bt _ _ Hin)) as Hkeep. cbn beta in Hkeep.
+        split; [exact Hsc|]. intros Hgen peek c0. unfold bk.
+        assert (Hdef : is_arg (bt child) = true \/ (is_arg (bt child) = false /\ tsig (bt child) = []) ->
+                       post (if is_arg (bt child)
+                             then d <- convert_arg c0 child ;; ret (is_ends_with_hashed_expr child, fi_spaced d)
+                             else ret (false, fi_none))
+                            (fun r => fres (tsig (bt child)) (snd r))).
+        { intros [Ea|[Ea Ht]]; rewrite Ea.
+          - eapply post_bind; [apply (cons_convert_arg_in sl); [apply Forall_forall; exact Hg|apply Forall_forall; exact Hs|exact Hin]|].
+            intros d Hd. apply post_ret. fsimp. exact Hd.
+          - apply post_ret. fsimp. exact Ht. }
+        assert (Hcase : is_arg (bt child) = true \/ (is_arg (bt child) = false /\ tsig (bt child) = []) \/
+                        kind_eqb (kind_of (bt child)) KComma = true \/ kind_eqb (kind_of (bt child)) KSemicolon = true).
+        { rewrite Hgen in Hkeep. cbn [orb] in Hkeep. destruct (kind_eqb (kind_of (bt child)) KComma); [auto|].
+          destruct (kind_eqb (kind_of (bt child)) KSemicolon); [auto|]. cbn [orb] in Hkeep.
+          destruct (is_arg (bt child)); [auto|]. cbn [orb] in Hkeep. right. left. split; [reflexivity|].
+          unfold sig_empty in Hkeep. destruct (tsig (bt child)); [reflexivity|discriminate]. }
+        destruct (kind_of (bt child)) eqn:Ekc;
+          lazymatch type of Ekc with
+          | _ = KComma => apply post_ret; fsimp; rewrite (sc_quiet _ Hsc) by (rewrite Ekc; reflexivity); exact (good_text [44])
+          | _ = KSemicolon => apply post_ret; fsimp; rewrite (sc_quiet _ Hsc) by (rewrite Ekc; reflexivity); exact (good_text [59])
+          | _ = KSpace =>
+              apply post_ret; cbn [snd]; destruct (has_lb _); fsimp;
+              rewrite (sc_quiet _ Hsc) by (rewrite Ekc; reflexivity); [split; reflexivity|reflexivity]
+          | _ => apply Hdef; destruct Hcase as [H1|[H1|[H1|H1]]]; [left; exact H1|right; exact H1|discriminate H1|discriminate H1]
+          end.
+      - intros inner [Hi Wi]. destruct (a_multiline _); apply post_ret; split.
+        + rewrite dsig_enclose, dsig_group, !dsig_append, dsig_nest, dsig_append, !dsig_text, Hi. cbn. rewrite !app_nil_r. reflexivity.
+        + apply wsig_enclose; try apply wsig_text. rewrite wsig_group. apply wsig_append; [|reflexivity]. rewrite wsig_nest. apply wsig_append; [reflexivity|exact Wi].
+        + rewrite dsig_enclose, !dsig_text, Hi. cbn. rewrite !app_nil_r. reflexivity.
+        + apply wsig_enclose; try apply wsig_text. exact Wi.
+    Qed.
+
+    Lemma cons_convert_func_call_args t c :
+      args_ok (map bt kids) && margs_ok (map bt kids) = true ->
+      post (convert_func_call_args swidth cfg t kids c NotTable) (good_doc (tsigs kids)).
+    Proof.
+      intros H. apply andb_prop in H. destruct H as [Ha Hm]. unfold convert_func_call_args.
+      destruct (is_math_mode _); [apply cons_convert_args_in_math; exact Hm|].
+      rewrite (args_sig_eq Ha). unfold args_ok in Ha. apply andb_prop in Ha. destruct Ha as [_ Hw]. unfold args_main in Hw. rewrite <- has_paren_map in Hw.
+      apply (post_bind _ _ (good_doc (tsigs (if has_parenthesized_args kids then take_until_rparen kids else [])))).
+      - destruct (has_parenthesized_args kids); [apply cons_convert_parenthesized_args; exact Hw|apply post_ret; apply good_nil].
+      - intros p Hp. eapply post_bind; [apply cons_convert_additional_args|]. intros a Ha'. apply post_ret. apply good_append; assumption.
+    Qed.
+  End Args.
+
+  (* ---------- func_call.rs: the call itself (callee is not a field access: no chain) ---------- *)
+  Section Call.
+    Variable t : tree.
+    Variable kids : list bundle.
+    Hypothesis Hgood : Forall sgood kids.
+    Hypothesis Hscope : Forall (fun b => sc (bt b) = true) kids.
+
+    Lemma cons_convert_func_call self c :
+      bt self = t -> bkids self = kids ->
+      match find is_expr (map bt kids) with
+      | Some cal =>
+          negb (kind_eqb (kind_of cal) KFieldAccess) &&
+          negb (match (if kind_eqb (kind_of cal) KIdent then Some (text_of cal) else None) with
+                | Some n => existsb (str_eqb n) TABLE_FUNCS | None => false end) &&
+          str_eqb (tsigl (map bt kids)) (tsig cal ++ match find (fun c => kind_eqb (kind_of c) KArgs) (rev (map bt kids)) with Some a => tsig a | None => [] end)
+      | None => false
+      end = true ->
+      post (convert_func_call swidth cfg self c) (good_doc (tsigs kids)).
+    Proof.
+      intros Et Ek Hcl. rewrite find_map_bt in Hcl.
+      destruct (find (fun b => is_expr (bt b)) kids) as [cal|] eqn:Ef; cbn [option_map] in Hcl; [|discriminate].
+      apply andb_prop in Hcl. destruct Hcl as [Hcl He]. apply andb_prop in Hcl. destruct Hcl as [Hnf Hnt].
+      apply (proj1 (str_eqb_eq _ _)) in He. rewrite tsigl_map in He. rewrite <- map_rev, (find_map_bt (fun c => kind_eqb (kind_of c) KArgs)) in He.
+      pose proof (find_some _ _ Ef) as [Hcin _]. rewrite Forall_forall in Hgood, Hscope.
+      unfold convert_func_call, first_kid. rewrite Ek, Ef. unfold bk.
+      destruct (kind_eqb (kind_of (bt cal)) KFieldAccess); [discriminate|].
+      apply (post_bind _ _ (fun o => o = None)); [apply post_ret; reflexivity|]. intros o ->.
+      unfold convert_func_call_plain, first_kid, args_of_call, last_kid. rewrite Ek, Ef. rewrite He.
+      eapply post_bind; [apply (sgood_call cal (RExpr c)); [apply Hgood; exact Hcin|apply Hscope; exact Hcin|reflexivity]|].
+      intros dc Hdc.
+      unfold is_kind.
+      destruct (find (fun k => kind_eqb (kind_of (bt k)) KArgs) (rev kids)) as [a|] eqn:Ea; cbn [option_map].
+      - pose proof (find_some _ _ Ea) as [Hain Hak]. apply in_rev in Hain.
+        assert (Eti : table_info_of self a = NotTable).
+        { unfold table_info_of, is_table, indent_func_name, first_kid. rewrite Ek, Ef. unfold bk.
+          destruct (kind_eqb (kind_of (bt cal)) KIdent); [|reflexivity].
+          unfold str_in. destruct (existsb _ TABLE_FUNCS); [discriminate|reflexivity]. }
+        rewrite Eti.
+        eapply post_bind; [apply (sgood_call a (RFuncArgs c NotTable)); [apply Hgood; exact Hain|apply Hscope; exact Hain|]|].
+        + cbn. unfold is_kind. rewrite Hak. reflexivity.
+        + intros da Hda. apply post_ret. apply good_append; assumption.
+      - destruct (is_math_mode _); [intros n d n' H; discriminate H|].
+        eapply post_bind; [apply post_ret; apply good_nil|]. intros da Hda. apply post_ret. apply good_append; assumption.
+    Qed.
+  End Call.
+
+  Lemma sc_inner' t : sc t = true -> inner_kind (kind_of t) = true ->
+    knode_ok (kind_of t) (children t) = true /\ Forall (fun c => sc c = true) (children t).
+  Proof.
+    destruct t as [k s a|k cs a]; cbn [kind_of children]; intros Hs Hk.
+    - cbn in Hs. unfold leaf_ok in Hs. rewrite Hk in Hs. discriminate.
+    - apply (sc_kids _ _ _ Hs).
+  Qed.
+  (* ---------- code blocks ---------- *)
+  Section CodeBlock.
+    Variable kids : list bundle.
+    Hypothesis Hgood : Forall sgood kids.
+    Hypothesis Hscope : Forall (fun b => sc (bt b) = true) kids.
+
+    Definition cb_nodes : list bundle := flat_map (fun b => if kind_eqb (bk b) KCode then bkids b else [b]) kids.
+
+    Lemma cb_nodes_good : Forall sgood cb_nodes /\ Forall (fun b => sc (bt b) = true) cb_nodes /\
+                          map bt cb_nodes = flat_map (fun c => if kind_eqb (kind_of c) KCode then children c else [c]) (map bt kids) /\
+                          tsigs cb_nodes = tsigs kids.
+    Proof.
+      unfold cb_nodes. induction kids as [|b l IH]; cbn [flat_map map]; [repeat split; constructor|].
+      inversion Hgood as [|? ? Hb Hl]; subst. inversion Hscope as [|? ? Hsb Hsl]; subst.
+      destruct (IH Hl Hsl) as (G & S & M & T). unfold bk at 1 3 5 7.
+      destruct (kind_eqb (kind_of (bt b)) KCode) eqn:E.
+      - pose proof (good_kids _ _ Hb) as Hgk. pose proof (good_shape _ _ Hb) as Hsh.
+        assert (Hk : inner_kind (kind_of (bt b)) = true) by (apply keq in E; rewrite E; reflexivity).
+        destruct (sc_inner' _ Hsb Hk) as [_ Hck]. rewrite <- Hsh in Hck.
+        repeat split.
+        + apply Forall_app. split; assumption.
+        + apply Forall_app. split; [|exact S]. apply Forall_forall. intros x Hin. rewrite Forall_forall in Hck. apply Hck. apply in_map. exact Hin.
+        + rewrite map_app, M, Hsh. reflexivity.
+        + rewrite tsigs_app, T, tsigs_cons. f_equal. symmetry. apply tsig_kids'; assumption.
+      - repeat split.
+        + cbn [app]. constructor; assumption.
+        + cbn [app]. constructor; assumption.
+        + cbn [app map]. rewrite M. reflexivity.
+        + cbn [app]. rewrite !tsigs_cons, T. reflexivity.
+    Qed.
+
+    Lemma cons_convert_code_block t c :
+      map bt kids = children t -> inner_kind (kind_of t) = true -> sc t = true ->
+      lwalkb is_expr (flat_map (fun c => if kind_eqb (kind_of c) KCode then children c else [c]) (map bt kids)) false = true ->
+      post (convert_code_block swidth cfg t kids c) (good_doc (tsigs kids)).
+    Proof.
+      intros Hshape Hk Hsct Hw. unfold convert_code_block.
+      match goal with |- post (if ?b then _ else _) _ => destruct b end.
+      { apply post_ret. rewrite <- (tsig_kids' t kids Hshape Hk Hsct). apply good_verbatim. }
+      destruct cb_nodes_good as (G & S & M & T). fold cb_nodes. rewrite <- T.
+      eapply post_bind.
+      - apply list_conv_sig; [apply fresh_keep, fresh_fold, fresh_front, fresh_new|exact S|rewrite M; exact Hw|].
+        intros c0 b Hin _. rewrite Forall_forall in G, S. apply (sgood_call b (RExpr c0)); auto.
+      - intros l (E & W & F). apply post_ret. apply lst_doc_good; [repeat split; reflexivity|exact E|exact W|exact F].
+    Qed.
+  End CodeBlock.
+
+  (* ---------- math.rs ---------- *)
+  Section Math.
+    Variable kids : list bundle.
+    Hypothesis Hgood : Forall sgood kids.
+    Hypothesis Hscope : Forall (fun b => sc (bt b) = true) kids.
+
+    Lemma cons_convert_math t c :
+      map bt kids = children t -> inner_kind (kind_of t) = true -> sc t = true ->
+      forallb (fun c => is_expr c || negb (inner_kind (kind_of c))) (map bt kids) = true ->
+      post (convert_math swidth t kids c) (good_doc (tsigs kids)).
+    Proof.
+      intros Hshape Hk Hsct Hcl. unfold convert_math. apply post_bump_then'. unfold check_disabled.
+      destruct (a_disabled _). { apply post_ret. rewrite <- (tsig_kids' t kids Hshape Hk Hsct). apply good_verbatim. }
+      eapply post_bind.
+      - apply (post_foldM_sig _ (fun st : doc * bool => dsig (fst st)) (fun b => tsig (bt b)) (fun st => wsig (fst st) = true)); [reflexivity|].
+        intros [d ah] b Hin Hw. cbn [fst] in *. rewrite Forall_forall in Hgood, Hscope.
+        pose proof (Hgood b Hin) as Hsg. pose proof (Hscope b Hin) as Hsb.
+        pose proof (proj1 (forallb_forall _ _) Hcl (bt b) (in_map bt _ _ Hin)) as Hkb. cbn beta in Hkb.
+        destruct (is_expr (bt b)) eqn:E1.
+        { eapply post_bind; [apply (sgood_call b (RExprEmb _) Hsg Hsb); reflexivity|].
+          intros x [Hx Wx]. apply post_ret. cbn [fst]. rewrite dsig_append, Hx. split; [reflexivity|apply wsig_append; assumption]. }
+        assert (Htok : inner_kind (bk b) = false).
+        { unfold bk. destruct (inner_kind (kind_of (bt b))); [cbn in Hkb; discriminate Hkb|reflexivity]. }
+        destruct (kind_eqb (bk b) KSpace) eqn:E2.
+        { apply post_ret. cbn [fst]. rewrite dsig_append.
+          rewrite (sc_quiet _ Hsb) by (unfold bk in E2; apply keq in E2; rewrite E2; reflexivity).
+          unfold convert_space_text. destruct (has_lb _); cbn; rewrite app_nil_r; (split; [reflexivity|apply wsig_append; [exact Hw|reflexivity]]). }
+        destruct (kind_eqb (bk b) KHash) eqn:E3.
+        { apply post_ret. cbn [fst]. rewrite dsig_append, dsig_text.
+          rewrite (sc_fixed _ [35] Hsb) by (unfold bk in E3; apply keq in E3; rewrite E3; reflexivity).
+          split; [reflexivity|apply wsig_append; [exact Hw|apply wsig_text]]. }
+        apply post_ret. cbn [fst]. destruct (good_trivia b Hsb Htok) as [Hd Wd]. rewrite dsig_append, Hd.
+        split; [reflexivity|apply wsig_append; assumption].
+      - intros [d ah] [E W]. apply post_ret. cbn [fst] in *. split; [exact E|exact W].
+    Qed.
+
+    Lemma cons_convert_equation t c :
+      lwalkb (fun c => kind_eqb (kind_of c) KMath && negb (match children c with [] => true | _ => false end)) (map bt kids) false = true ->
+      post (convert_equation swidth cfg t kids c) (good_doc (tsigs kids)).
+    Proof.
+      intros Hw. unfold convert_equation.
+      set (acc := fun b : bundle => kind_eqb (bk b) KMath && negb (match bkids b with [] => true | _ => false end)).
+      assert (Hacc : forall b, In b kids -> acc b = (kind_eqb (kind_of (bt b)) KMath && negb (match children (bt b) with [] => true | _ => false end))).
+      { intros b Hin. unfold acc, bk. rewrite Forall_forall in Hgood. rewrite <- (good_shape _ _ (Hgood b Hin)).
+        destruct (bkids b); reflexivity. }
+      eapply post_bind.
+      - eapply post_weaken.
+        + apply (lst_process_sig _ _ kids _ acc).
+          * split; constructor.
+          * cbn [l_peek_hash lst_with_fold_style lst_new].
+            assert (G : forall l pend, (forall b, In b l -> In b kids) ->
+                      lwalkb (fun c => kind_eqb (kind_of c) KMath && negb (match children c with [] => true | _ => false end)) (map bt l) pend = true ->
+                      lwalk acc l pend).
+            { induction l as [|n r IH]; intros pend Hsub H; cbn [map lwalkb lwalk] in *.
+              - destruct pend; [discriminate|reflexivity].
+              - rewrite Forall_forall in Hscope. split; [apply Hscope, Hsub; left; reflexivity|].
+                rewrite (Hacc n) by (apply Hsub; left; reflexivity).
+                destruct (kind_eqb (kind_of (bt n)) KMath && _); [apply IH; [intros; apply Hsub; right; assumption|exact H]|].
+                apply andb_prop in H. destruct H as [Hp H]. split; [destruct pend; [discriminate|reflexivity]|].
+                unfold is_comment_b, bk. destruct (is_comment_node (bt n)); [apply IH; [intros; apply Hsub; right; assumption|exact H]|].
+                destruct (kind_eqb (kind_of (bt n)) KHash); [apply IH; [intros; apply Hsub; right; assumption|exact H]|].
+                apply andb_prop in H. destruct H as [He H]. split; [|apply IH; [intros; apply Hsub; right; assumption|exact H]].
+                unfold sig_empty in He. destruct (tsig (bt n)); [reflexivity|discriminate]. }
+            apply G; auto.
+          * intros c0 n Hin Ha. unfold acc in Ha. rewrite Ha.
+            apply andb_prop in Ha. destruct Ha as [Hk _]. rewrite Forall_forall in Hgood, Hscope.
+            eapply post_bind; [apply (sgood_call n (RMath c0)); [apply Hgood; exact Hin|apply Hscope; exact Hin|exact Hk]|].
+            intros body [Hb Wb]. apply post_ret. eexists. split; [reflexivity|].
+            match goal with |- good_doc _ (if ?b then _ else _) => destruct b end; [|split; assumption].
+            split; [rewrite dsig_append, Hb; cbn; rewrite app_nil_r; reflexivity|apply wsig_append; [exact Wb|reflexivity]].
+          * intros c0 n Hin Ha. unfold acc in Ha. rewrite Ha. apply post_ret. reflexivity.
+        + intros l H. exact H.
+      - intros l (E & W & F). apply post_ret. apply lst_doc_good; [|exact E|exact W|exact F].
+        repeat split; reflexivity.
+    Qed.
+
+    Lemma math_child_facts child :
+      forallb (fun c => is_generic c || is_expr c || negb (inner_kind (kind_of c))) (map bt kids) = true ->
+      In child kids -> is_generic (bt child) = false -> is_expr (bt child) = false -> inner_kind (bk child) = false.
+    Proof.
+      intros Hcl Hin Hg He. pose proof (proj1 (forallb_forall _ _) Hcl (bt child) (in_map bt _ _ Hin)) as H. cbn beta in H.
+      rewrite Hg, He in H. unfold bk. destruct (inner_kind (kind_of (bt child))); [cbn in H; discriminate H|reflexivity].
+    Qed.
+
+    Lemma cons_convert_math_attach_like c :
+      forallb (fun c => is_generic c || is_expr c || negb (inner_kind (kind_of c))) (map bt kids) = true ->
+      post (convert_math_attach_like swidth kids c) (good_doc (tsigs kids)).
+    Proof.
+      intros Hcl. unfold convert_math_attach_like. apply flow_like_sig.
+      apply Forall_forall. intros child Hin. rewrite Forall_forall in Hgood, Hscope.
+      pose proof (Hgood child Hin) as Hsg. pose proof (Hscope child Hin) as Hsc.
+      split; [exact Hsc|]. intros Hgen c0.
+      destruct (is_expr (bt child)) eqn:E1.
+      { pstep Hsg Hsc. apply post_ret. fsimp. split; assumption. }
+      destruct (kind_eqb (bk child) KSpace) eqn:E2.
+      { apply post_ret. fsimp. apply (sc_quiet _ Hsc). unfold bk in E2. apply keq in E2. rewrite E2. reflexivity. }
+      apply post_ret. fsimp. apply good_trivia; [exact Hsc|]. apply math_child_facts; assumption.
+    Qed.
+
+    Lemma cons_convert_math_frac c :
+      forallb (fun c => is_generic c || is_expr c || negb (inner_kind (kind_of c))) (map bt kids) = true ->
+      post (convert_math_frac swidth kids c) (good_doc (tsigs kids)).
+    Proof.
+      intros Hcl. unfold convert_math_frac. apply flow_like_sig.
+      apply Forall_forall. intros child Hin. rewrite Forall_forall in Hgood, Hscope.
+      pose proof (Hgood child Hin) as Hsg. pose proof (Hscope child Hin) as Hsc.
+      split; [exact Hsc|]. intros Hgen c0.
+      destruct (is_expr (bt child)) eqn:E1.
+      { pstep Hsg Hsc. apply post_ret. fsimp. split; assumption. }
+      destruct (kind_eqb (bk child) KSpace) eqn:E2; cbn [negb].
+      { apply post_ret. fsimp. apply (sc_quiet _ Hsc). unfold bk in E2. apply keq in E2. rewrite E2. reflexivity. }
+      apply post_ret. fsimp. apply good_trivia; [exact Hsc|]. apply math_child_facts; assumption.
+    Qed.
+  End Math.
+
+  (* ---------- math.rs: delimited groups ---------- *)
+  Lemma removelast_map {A B} (f : A -> B) l : map f (removelast l) = removelast (map f l).
+  Proof. induction l as [|x l IH]; [reflexivity|]. destruct l; [reflexivity|]. cbn [removelast map] in *. rewrite IH. reflexivity. Qed.
+  Lemma split_last_t_map {A B} (f : A -> B) l :
+    split_last_t (map f l) = option_map (fun p => (map f (fst p), f (snd p))) (split_last_t l).
+  Proof. unfold split_last_t. rewrite <- map_rev. destruct (rev l); cbn; [reflexivity|]. rewrite map_rev. reflexivity. Qed.
+  Lemma delimited_inner_map l : delimited_inner kind_of (map bt l) = map bt (delimited_inner bk l).
+  Proof.
+    unfold delimited_inner. destruct l as [|x [|y r]]; [reflexivity|reflexivity|]. cbn [map].
+    change (bt y :: map bt r) with (map bt (y :: r)). rewrite <- removelast_map.
+    destruct (removelast (y :: r)) as [|f q] eqn:E0; cbn [map].
+    - reflexivity.
+    - unfold bk. destruct (kind_eqb (kind_of (bt f)) KSpace).
+      + rewrite split_last_t_map. destruct (split_last_t q) as [[q' l']|]; cbn [option_map fst snd]; [|reflexivity].
+        destruct (kind_eqb (kind_of (bt l')) KSpace); reflexivity.
+      + change (bt f :: map bt q) with (map bt (f :: q)). rewrite split_last_t_map.
+        destruct (split_last_t (f :: q)) as [[q' l']|]; cbn [option_map fst snd]; [|reflexivity].
+        destruct (kind_eqb (kind_of (bt l')) KSpace); reflexivity.
+  Qed.
+  Lemma Forall_removelast (P : bundle -> Prop) l : Forall P l -> Forall P (removelast l).
+  Proof. induction 1 as [|x l Hx Hl IH]; [constructor|]. destruct l; [constructor|]. cbn [removelast] in *. constructor; assumption. Qed.
+  Lemma Forall_split_last (P : bundle -> Prop) l q x : Forall P l -> split_last_t l = Some (q, x) -> Forall P q.
+  Proof.
+    intros H E. unfold split_last_t in E. destruct (rev l) as [|y r] eqn:Er; [discriminate|]. inversion E; subst.
+    apply Forall_rev. apply Forall_rev in H. rewrite Er in H. inversion H; assumption.
+  Qed.
+  Lemma Forall_delimited_inner (P : bundle -> Prop) l : Forall P l -> Forall P (delimited_inner bk l).
+  Proof.
+    intros H. unfold delimited_inner. destruct l as [|x [|y r]]; [constructor|constructor|].
+    inversion H as [|? ? _ Hr]; subst. pose proof (Forall_removelast P _ Hr) as H0.
+    destruct (removelast (y :: r)) as [|f q]; [constructor|].
+    inversion H0 as [|? ? _ Hq]; subst.
+    destruct (kind_eqb (bk f) KSpace).
+    - destruct (split_last_t q) as [[q' l']|] eqn:Es; [|exact Hq]. destruct (kind_eqb (bk l') KSpace); [|exact Hq].
+      apply (Forall_split_last P q q' l' Hq Es).
+    - destruct (split_last_t (f :: q)) as [[q' l']|] eqn:Es; [|exact H0]. destruct (kind_eqb (bk l') KSpace); [|exact H0].
+      apply (Forall_split_last P (f :: q) q' l' H0 Es).
+  Qed.
+
+  Section Delimited.
+    Variable kids : list bundle.
+    Hypothesis Hgood : Forall sgood kids.
+    Hypothesis Hscope : Forall (fun b => sc (bt b) = true) kids.
+
+    Lemma space_text_quiet s : dsig (convert_space_text s) = [] /\ wsig (convert_space_text s) = true.
+    Proof. unfold convert_space_text. destruct (has_lb s); split; reflexivity. Qed.
+
+    Lemma cons_delimited_body c inner :
+      Forall sgood inner -> Forall (fun b => sc (bt b) = true) inner ->
+      all_kept (fun c => kind_eqb (kind_of c) KMath) (map bt inner) = true ->
+      post (flow_like swidth c inner (fun c node =>
+              if kind_eqb (bk node) KMath then d <- call node (RMath c) ;; ret (fi_tight d)
+              else if kind_eqb (bk node) KSpace then ret (fi_tight (if has_lb (tx node) then line else space))
+              else ret fi_none)) (good_doc (tsigs inner)).
+    Proof.
+      intros Hg Hs Hk. apply flow_like_sig. apply Forall_forall. intros child Hin. rewrite Forall_forall in Hg, Hs.
+      pose proof (Hg child Hin) as Hsg. pose proof (Hs child Hin) as Hsc.
+      pose proof (all_kept_in _ _ (bt child) Hk (in_map bt _ _ Hin)) as Hkeep.
+      split; [exact Hsc|]. intros Hgen c0.
+      destruct (kind_eqb (bk child) KMath) eqn:E1.
+      { pstep Hsg Hsc. apply post_ret. fsimp. split; assumption. }
+      destruct (kind_eqb (bk child) KSpace) eqn:E2.
+      { apply post_ret. fsimp. rewrite (sc_quiet _ Hsc) by (unfold bk in E2; apply keq in E2; rewrite E2; reflexivity).
+        destruct (has_lb _); split; reflexivity. }
+      apply post_ret. fsimp. unfold bk in E1. rewrite Hgen, E1 in Hkeep. cbn in Hkeep. unfold sig_empty in Hkeep.
+      destruct (tsig (bt child)); [reflexivity|discriminate].
+    Qed.
+
+    Lemma cons_convert_math_delimited c :
+      match find is_expr (map bt kids), find is_expr (rev (map bt kids)) with
+      | Some o, Some cl =>
+          let inner := delimited_inner kind_of (map bt kids) in
+          str_eqb (tsigl (map bt kids)) (tsig o ++ tsigl inner ++ tsig cl) &&
+          all_kept (fun c => kind_eqb (kind_of c) KMath) inner
+      | _, _ => false
+      end = true ->
+      post (convert_math_delimited swidth cfg kids c) (good_doc (tsigs kids)).
+    Proof.
+      intros Hcl. rewrite <- map_rev, !find_map_bt in Hcl.
+      destruct (find (fun b => is_expr (bt b)) kids) as [o|] eqn:Eo; cbn [option_map] in Hcl; [|discriminate].
+      destruct (find (fun b => is_expr (bt b)) (rev kids)) as [cl|] eqn:Ec; cbn [option_map] in Hcl; [|discriminate].
+      cbv zeta in Hcl. apply andb_prop in Hcl. destruct Hcl as [He Hk]. apply (proj1 (str_eqb_eq _ _)) in He.
+      rewrite delimited_inner_map, !tsigl_map in He. rewrite delimited_inner_map in Hk.
+      pose proof (Forall_delimited_inner _ _ Hgood) as Hgi. pose proof (Forall_delimited_inner _ _ Hscope) as Hsi.
+      pose proof (find_some _ _ Eo) as [Hoin _]. pose proof (find_some _ _ Ec) as [Hcin _]. apply in_rev in Hcin.
+      rewrite Forall_forall in Hgood, Hscope.
+      unfold convert_math_delimited. destruct kids as [|k0 [|k1 r]]; [intros n d n' H; discriminate H|intros n d n' H; discriminate H|].
+      rewrite He. rewrite Eo, Ec.
+      (* the code's inner2 is delimited_inner, whatever blanks it peels off *)
+      unfold delimited_inner in Hgi, Hsi, Hk |- *. fold (@split_last bundle).
+      change (@split_last_t bundle) with (@split_last bundle) in *.
+      set (inner0 := removelast (k1 :: r)) in *. clearbody inner0.
+      assert (Hfin : forall os cs inner2, dsig os = [] -> wsig os = true -> dsig cs = [] -> wsig cs = true ->
+                Forall sgood inner2 -> Forall (fun b => sc (bt b) = true) inner2 ->
+                all_kept (fun c => kind_eqb (kind_of c) KMath) (map bt inner2) = true ->
+                post (body <- flow_like swidth c inner2 (fun c node =>
+                                if kind_eqb (bk node) KMath then d <- call node (RMath c) ;; ret (fi_tight d)
+                                else if kind_eqb (bk node) KSpace then ret (fi_tight (if has_lb (tx node) then line else space))
+                                else ret fi_none) ;;
+                      open <- call o (RExpr c) ;; close <- call cl (RExpr c) ;;
+                      ret (enclose open close (append (nest (Z.of_N (tab_spaces cfg)) (append os body)) cs)))
+                     (good_doc (tsig (bt o) ++ tsigs inner2 ++ tsig (bt cl)))).
+      { intros os cs inner2 Ho Wo Hc Wc Hg2 Hs2 Hk2.
+        eapply post_bind; [apply cons_delimited_body; assumption|]. intros body [Hb Wb].
+        eapply post_bind; [apply (sgood_call o (RExpr c)); [apply Hgood; exact Hoin|apply Hscope; exact Hoin|reflexivity]|]. intros op [Hop Wop].
+        eapply post_bind; [apply (sgood_call cl (RExpr c)); [apply Hgood; exact Hcin|apply Hscope; exact Hcin|reflexivity]|]. intros clo [Hclo Wclo].
+        apply post_ret. split.
+        - rewrite dsig_enclose, dsig_append, dsig_nest, dsig_append, Ho, Hc, Hb, Hop, Hclo. cbn [app]. rewrite app_nil_r. reflexivity.
+        - apply wsig_enclose; try assumption. apply wsig_append; [|exact Wc]. rewrite wsig_nest. apply wsig_append; assumption. }
+      destruct inner0 as [|f q].
+      - cbn [split_last rev] in *. apply (Hfin DNil DNil []); auto; reflexivity.
+      - destruct (kind_eqb (bk f) KSpace) eqn:Ef.
+        + destruct (space_text_quiet (tx f)) as [Hs1 Hs2].
+          destruct (split_last q) as [[q' l']|] eqn:Es.
+          * destruct (kind_eqb (bk l') KSpace) eqn:El.
+            -- destruct (space_text_quiet (tx l')) as [Hs3 Hs4]. apply Hfin; auto.
+            -- apply Hfin; auto; reflexivity.
+          * apply Hfin; auto; reflexivity.
+        + destruct (split_last (f :: q)) as [[q' l']|] eqn:Es.
+          * destruct (kind_eqb (bk l') KSpace) eqn:El.
+            -- destruct (space_text_quiet (tx l')) as [Hs3 Hs4]. apply Hfin; auto; reflexivity.
+            -- apply Hfin; auto; reflexivity.
+          * apply Hfin; auto; reflexivity.
+    Qed.
+  End Delimited.
+
   (* ---------- dispatch, step, build ---------- *)
   Lemma tsig_kids t kids : map bt kids = children t -> inner_kind (kind_of t) = true -> sc t = true -> tsig t = tsigs kids.
   Proof.
@@ -1038,6 +1579,29 @@ Section SigConv.
               by (unfold math_primes_count; cbn [children]; rewrite Hshape; reflexivity);
             apply good_text
         | E : kind_of t = KParenthesized |- _ => inner_case cons_convert_parenthesized
+        | E : kind_of t = KFuncCall |- _ =>
+            let Hk := fresh "Hk" in
+            assert (Hk : inner_kind (kind_of t) = true) by (rewrite E; reflexivity);
+            pose proof (node_clause Hk) as Hclause; rewrite E in Hclause; cbn [knode_ok] in Hclause;
+            rewrite (tsig_kids t kids Hshape Hk Hsc);
+            apply (cons_convert_func_call t kids Hgood (kids_scope Hk) self c Et Ek Hclause)
+        | E : kind_of t = KCodeBlock |- _ =>
+            let Hk := fresh "Hk" in
+            assert (Hk : inner_kind (kind_of t) = true) by (rewrite E; reflexivity);
+            pose proof (node_clause Hk) as Hclause; rewrite E in Hclause; cbn [knode_ok] in Hclause;
+            rewrite (tsig_kids t kids Hshape Hk Hsc);
+            apply cons_convert_code_block; [exact Hgood|apply kids_scope; exact Hk|exact Hshape|exact Hk|exact Hsc|exact Hclause]
+        | E : kind_of t = KMath |- _ =>
+            let Hk := fresh "Hk" in
+            assert (Hk : inner_kind (kind_of t) = true) by (rewrite E; reflexivity);
+            pose proof (node_clause Hk) as Hclause; rewrite E in Hclause; cbn [knode_ok] in Hclause;
+            rewrite (tsig_kids t kids Hshape Hk Hsc);
+            apply cons_convert_math; [exact Hgood|apply kids_scope; exact Hk|exact Hshape|exact Hk|exact Hsc|exact Hclause]
+        | E : kind_of t = KEquation |- _ => inner_case cons_convert_equation
+        | E : kind_of t = KMathDelimited |- _ => inner_case cons_convert_math_delimited
+        | E : kind_of t = KMathAttach |- _ => inner_case cons_convert_math_attach_like
+        | E : kind_of t = KMathRoot |- _ => inner_case cons_convert_math_attach_like
+        | E : kind_of t = KMathFrac |- _ => inner_case cons_convert_math_frac
         | E : kind_of t = KArray |- _ => inner_case cons_convert_array
         | E : kind_of t = KDict |- _ => inner_case cons_convert_dict
         | E : kind_of t = KUnary |- _ => inner_case cons_convert_unary
@@ -1114,11 +1678,38 @@ Section SigConv.
         | |- post (convert_embedded_expr _ _ _ _) _ => apply cons_convert_embedded_expr; reflexivity
         | |- post (convert_markup_impl _ _ _ _ _) _ => rename Hfit into E; inner_case2 cons_convert_markup_impl
         | |- post (convert_content_block _ _ _ _) _ => rename Hfit into E; inner_case2 cons_convert_content_block
+        | |- post (convert_math _ _ _ _) _ =>
+            rename Hfit into E;
+            let Hk := fresh "Hk" in
+            assert (Hk : inner_kind (kind_of t) = true) by (rewrite E; reflexivity);
+            pose proof (node_clause t kids Hshape Hsc Hk) as Hclause; rewrite E in Hclause; cbn [knode_ok] in Hclause;
+            rewrite (tsig_kids t kids Hshape Hk Hsc);
+            apply cons_convert_math; [exact Hgood|apply (kids_scope t kids Hshape Hsc); exact Hk|exact Hshape|exact Hk|exact Hsc|exact Hclause]
         | |- post (convert_parenthesized _ _ _ _ _ _) _ => rename Hfit into E; inner_case2 cons_convert_parenthesized
         | |- post (convert_named _ _ _) _ => rename Hfit into E; inner_case2 cons_convert_named
         | |- post (convert_keyed _ _ _) _ => rename Hfit into E; inner_case2 cons_convert_keyed
         | |- post (convert_spread _ _ _) _ => rename Hfit into E; inner_case2 cons_convert_spread
         | |- post (convert_params _ _ _ _ _ _) _ => rename Hfit into E; inner_case2 cons_convert_params
+        | |- post (convert_args _ _ _ _ _) _ =>
+            rename Hfit into E; inner_case2 cons_convert_args; apply andb_prop in Hclause; apply Hclause
+        | |- post (convert_func_call_args _ _ _ _ _ ?ti) _ =>
+            apply andb_prop in Hfit; destruct Hfit as [E Hti]; apply keq in E; destruct ti; try discriminate Hti;
+            inner_case2 cons_convert_func_call_args
+        | |- post (convert_parenthesized_args _ _ _ _ _) _ =>
+            apply andb_prop in Hfit; destruct Hfit as [E Hpo]; apply keq in E;
+            let Hk := fresh "Hk" in
+            assert (Hk : inner_kind (kind_of t) = true) by (rewrite E; reflexivity);
+            pose proof (node_clause t kids Hshape Hsc Hk) as Hclause; rewrite E in Hclause; cbn [knode_ok] in Hclause;
+            apply andb_prop in Hclause; destruct Hclause as [Hao _];
+            rewrite (tsig_kids t kids Hshape Hk Hsc), (args_sig_eq kids Hao);
+            unfold paren_args_only in Hpo; rewrite <- Hshape in Hpo; apply andb_prop in Hpo; destruct Hpo as [Hhp Hex];
+            rewrite (has_paren_map kids), Hhp;
+            unfold args_extra in Hex; rewrite Hhp in Hex;
+            rewrite <- skip_until_map, <- (filter_map_bt (fun b => kind_eqb (kind_of b) KContentBlock)) in Hex;
+            destruct (filter (fun b => kind_eqb (kind_of (bt b)) KContentBlock) (skip_until KRightParen kids)) eqn:Efl; [|discriminate Hex];
+            unfold bk; rewrite Efl, tsigs_nil, app_nil_r;
+            apply cons_convert_parenthesized_args; [exact Hgood|apply (kids_scope t kids Hshape Hsc); exact Hk|];
+            unfold args_ok in Hao; apply andb_prop in Hao; destruct Hao as [_ Hw]; unfold args_main in Hw; rewrite Hhp in Hw; exact Hw
         | |- post (convert_import_item_path _ _ _) _ => rename Hfit into E; inner_case2 cons_convert_import_item_path
         | |- post (convert_import_item_renamed _ _ _) _ => rename Hfit into E; inner_case2 cons_convert_import_item_renamed
         | _ => exfalso; destruct t as [k0 s0 a0|k0 cs0 a0]; cbn in Hfit; subst; cbn in Hsc; discriminate Hsc
